@@ -83,7 +83,7 @@ def ellipsis_for_zero_axes(case):
             and parts[-1]["k"] == "e" and case["args"].get("enc") in ("packed", "packed2", "variadic"))
 
 
-PREDS = dict(slice_fewer_parts_no_ellipsis=fewer_parts_no_ellipsis, slice_ellipsis_for_zero_axes=ellipsis_for_zero_axes)
+PREDS = dict()      # no open findings (the two input classes were repaired: ec183ca, 9eb30a0)
 
 
 def describe(case, kind):
